@@ -179,6 +179,7 @@ def run_check(pid, tier, seed):
     violations, known_hits, samples, errors, notes = [], [], [], list(errs), []
     funcs = set()
     n_parts = n_exh = 0
+    empty_parts = []          # partitions in which no path reached the oracle (all unknown / out of budget): inconclusive
     for i in sorted(outs):
         funcs.update(outs[i].get('functions', []))
         for r in outs[i]['results']:
@@ -195,6 +196,8 @@ def run_check(pid, tier, seed):
             pc['known'] += r.get('known', 0)
             pc['unknown'] += r.get('unknown', 0) + r.get('spurious', 0)
             pc['violations'] += len(r.get('violations', []))
+            if not (r.get('confirmed', 0) or r.get('known', 0) or r.get('violations')):
+                empty_parts.append('%s%r' % (r['check'], r['part']))
             for v in r.get('violations', []):
                 violations.append(dict(v, check=r['check'], part=r['part']))
             for v in r.get('known_hits', []):
@@ -265,6 +268,7 @@ def run_check(pid, tier, seed):
             'stubs': meta.get('stubs', []),
             'witness_replays_checked': agg['witness_checked'], 'witness_replays_ok': agg['witness_ok'],
             'witness_reached': witness_ok,
+            'partitions_without_verdict': empty_parts[:40],
             'known_findings_seen': sorted(seen),
             'errors': errors[:10], 'notes': notes[:6],
         },
@@ -284,6 +288,8 @@ def run_check(pid, tier, seed):
                                                  agg['solver_queries'], agg['solver_time_s'], wall))
     for c, pc in per_check.items():
         print('   %-28s %s' % (c, pc))
+    for e in empty_parts[:6]:
+        print('INCONCLUSIVE partition (no path reached the oracle within the budget): %s' % e[:300])
     for e in errs[:4]:
         print('WORKER-ERROR: %s' % e[-600:])
     if vio_lines:
